@@ -219,3 +219,15 @@ Proof.
     + eapply Qle_trans; [exact H2 | exact Hd1].
     + intros x [<-|Hx]; [eapply Qle_trans; [exact H2 | exact Hd2] | apply H3; exact Hx].
 Qed.
+
+(* the Heat1D step count taken from the implementation is accepted only inside the bracket
+   r (1 - 2^-40) - 1 < steps <= r (1 + 2^-40),  r = max_time / ((5/11) dx^2)  (the exact ratio whose float floor the code takes) *)
+Lemma heat_steps_bracket N ep T steps : heat_steps_ok N ep T steps = true ->
+  (zq (Z.of_nat steps) <= heat_ratio N ep T * (1 + fuzz))%Qc /\
+  (heat_ratio N ep T * (1 - fuzz) < zq (Z.of_nat steps) + 1)%Qc.
+Proof.
+  unfold heat_steps_ok. intros H. apply andb_true_iff in H as [H1 H2].
+  apply Qle_bool_iff in H1. apply negb_true_iff in H2.
+  split; [exact H1|].
+  unfold Qclt. apply Qnot_le_lt. intro C. apply Qle_bool_iff in C. congruence.
+Qed.
